@@ -349,11 +349,12 @@ func execPerBig(in In, em *Emitter) {
 
 // genPerBig: thorough tier only. part = "rank" | "select" | "scan".
 func genPerBig(g *Gen, part string) {
-	if g.Quick() {
-		return
-	}
 	r := g.R
-	for _, nw := range []int64{1<<25 - 1, 1<<25 - 2, 1<<24 + 1, 1 << 22} {
+	sizes := []int64{1<<25 - 1, 1<<25 - 2, 1<<24 + 1, 1 << 22, 1<<15 + 1, 1<<16 + 2, 1<<17 - 1}
+	if g.Quick() { // word counts and index lengths beyond 2^15 and 2^16 (16-bit counters); the 2^31-bit objects are thorough only
+		sizes = []int64{1<<15 + 1, 1<<16 + 2, 1<<17 - 1}
+	}
+	for _, nw := range sizes {
 		N := nw * 64
 		n := N / 192 * 98 // about the number of 1-bits
 		near := func(c int64, lim int64) []int64 {
@@ -368,14 +369,14 @@ func genPerBig(g *Gen, part string) {
 		in := J{"nw": nw, "pos": []int64{}, "is": []int64{}, "wk": []int64{}, "sj": []int64{}, "ranges": [][]int64{}}
 		var pos, is, wk, sj []int64
 		var ranges [][]int64
-		for _, c := range []int64{0, N - 1, 1 << 16, 1 << 24, 1 << 30, 1<<30 + 1<<29, 3 << 29, N / 2, 192 * 1000, N - 192} {
+		for _, c := range []int64{0, N - 1, 1 << 16, 1 << 21, 1 << 22, 1 << 24, 1 << 30, 1<<30 + 1<<29, 3 << 29, N / 2, 192 * 1000, N - 192} {
 			pos = append(pos, near(c, N)...)
 			wk = append(wk, near(c/64, nw)...)
 			for _, e := range near(c, N) {
 				ranges = append(ranges, []int64{e, N}, []int64{e, min64(e+70, N)}, []int64{0, e + 1}, []int64{max64(e-200, 0), e + 1})
 			}
 		}
-		for _, c := range []int64{0, n - 4, 1 << 16, 1 << 24, 1 << 29, 1 << 30, n / 2, 98 * 1000} {
+		for _, c := range []int64{0, n - 4, 1 << 15, 1 << 16, 1 << 20, 1 << 21, 1 << 24, 1 << 29, 1 << 30, n / 2, 98 * 1000} {
 			is = append(is, near(c, n-3)...)
 			sj = append(sj, near(c/32, (n-3)/32)...)
 		}
@@ -1111,6 +1112,34 @@ func genC12(g *Gen) {
 				}
 			}
 			g.Case("ofbig", J{"pos": asc, "hasn": hasn, "n": n, "probes": pr})
+		}
+	}
+	// bitmaps of 2^15 and 2^16 words and their neighbours (word counts and bit counts that leave 16 bits): Get* and
+	// Safe* probes inside, at and beyond the end; Of / ToArray with last positions around 2^21 and 2^22
+	for _, nw := range []int64{1 << 15, 1<<15 + 1, 1<<16 - 1, 1 << 16, 1<<16 + 1, 1<<17 + 5} {
+		N := nw * 64
+		ones := []int64{0, 63, 64, 1 << 16, 1<<21 - 1, 1 << 21, 1<<21 + 64, 1<<22 - 1, 1 << 22, 1<<22 + 1, N - 1, N - 64, N - 65, r.Int63n(N), r.Int63n(N)}
+		seen := map[int64]bool{}
+		var ol, probes []int64
+		for _, p := range ones {
+			if p >= 0 && p < N && !seen[p] {
+				seen[p] = true
+				ol = append(ol, p)
+			}
+			probes = append(probes, p-1, p, p+1)
+		}
+		sortI64(ol)
+		probes = append(probes, N, N+1, N+63, N+64, -1, -64, -(1 << 21), -(1 << 22), 1<<31 - 1, -(1 << 31), r.Int63n(N))
+		g.Case("getbig", J{"bm": J{"nw": nw, "ones": ol}, "probes": probes})
+		for _, last := range []int64{N - 1, N - 64, N} {
+			asc := []int64{}
+			for _, p := range ol {
+				if p < last {
+					asc = append(asc, p)
+				}
+			}
+			asc = append(asc, last)
+			g.Case("ofbig", J{"pos": asc, "hasn": last%2 == 0, "n": []int64{last + 1, 5, last + 65}[last%3], "probes": []int64{0, -1, last, last - 1, last + 1, last - 64, last + 64, 1<<31 - 1, -(1 << 31), 1 << 21, 1 << 22}})
 		}
 	}
 	for i := 0; i < g.N(2500, 100000); i++ {
